@@ -434,3 +434,68 @@ Section Remove.
     Qed.
   End WithVis.
 End Remove.
+
+(* ---- additions for the repaired code: no `vis` needed ---- *)
+Section New2.
+  Variables (own own' : tbl) (exp exp' : addr -> bool) (uses : pkgid -> list pkgid) (p0 : pkgid) (n0 : name) (a0 : addr).
+  Hypothesis Hfresh : forall p n, own p n <> Some a0.
+  Hypothesis Hown1 : forall p n, ~ (p = p0 /\ n = n0) -> own' p n = own p n.
+  Hypothesis Hexp : forall a, a <> a0 -> exp' a = exp a.
+  Lemma eff_new2 q n : ~ (q = p0 /\ n = n0) -> eff own' exp' q n = eff own exp q n.
+  Proof.
+    intros H. unfold eff. rewrite (Hown1 _ _ H). destruct (own q n) as [a|] eqn:E; [|reflexivity].
+    rewrite Hexp; [reflexivity|]. intros ->. exact (Hfresh _ _ E).
+  Qed.
+  Lemma res_new_nonuser u n : u <> p0 -> ~ In p0 (uses u) -> res own' exp' uses u n = res own exp uses u n.
+  Proof.
+    intros Hu Hi. symmetry. apply res_ext; [symmetry; apply Hown1; tauto|reflexivity|].
+    intros q Hq. symmetry. apply eff_new2. intros [-> _]. auto.
+  Qed.
+  Lemma res_new_name2 u n : n <> n0 -> res own' exp' uses u n = res own exp uses u n.
+  Proof.
+    intros H. symmetry. apply res_ext; [symmetry; apply Hown1; tauto|reflexivity|].
+    intros q _. symmetry. apply eff_new2. tauto.
+  Qed.
+End New2.
+
+Lemma inherited_tbl_ext (T T' : tbl) exp us n :
+  (forall q, T q n = T' q n) -> inherited T exp us n = inherited T' exp us n.
+Proof. intros H. apply inherited_ext. intros q _. unfold eff. rewrite H. reflexivity. Qed.
+Lemma inherited_all_none (T : tbl) exp us n : (forall q, T q n = None) -> inherited T exp us n = None.
+Proof. intros H. induction us as [|q us IH]; [reflexivity|]. cbn. rewrite H. exact IH. Qed.
+
+(* remove1 on duplicate-free lists *)
+Lemma remove1_in x y l : In y (remove1 x l) -> In y l.
+Proof.
+  induction l as [|z l IH]; cbn; [tauto|]. destruct (N.eqb_spec x z) as [->|Hz]; [auto|].
+  intros [<-|H]; auto.
+Qed.
+Lemma remove1_in_other x y l : y <> x -> In y l -> In y (remove1 x l).
+Proof.
+  intros Hy. induction l as [|z l IH]; cbn; [tauto|]. destruct (N.eqb_spec x z) as [->|Hz].
+  - intros [<-|H]; [congruence|exact H].
+  - intros [<-|H]; [left; reflexivity|right; auto].
+Qed.
+Lemma remove1_nodup x l : NoDup l -> NoDup (remove1 x l) /\ ~ In x (remove1 x l).
+Proof.
+  induction l as [|z l IH]; cbn; intros Hn; [split; [constructor|tauto]|].
+  inversion Hn as [|? ? Hz Hl]; subst. destruct (N.eqb_spec x z) as [->|Hxz]; [split; assumption|].
+  destruct (IH Hl) as [H1 H2]. split.
+  - constructor; [|exact H1]. intros Hi. apply Hz. eapply remove1_in; eassumption.
+  - intros [E|Hi]; [congruence|tauto].
+Qed.
+Lemma mem_remove1_same x l : NoDup l -> mem x (remove1 x l) = false.
+Proof. intros H. apply mem_nIn. apply (remove1_nodup x l H). Qed.
+Lemma mem_remove1_other x y l : y <> x -> mem y (remove1 x l) = mem y l.
+Proof.
+  intros Hy. destruct (mem y l) eqn:E.
+  - apply mem_In. apply remove1_in_other; [exact Hy|]. apply mem_In, E.
+  - apply mem_nIn. intros Hi. apply remove1_in in Hi. apply mem_In in Hi. congruence.
+Qed.
+Lemma NoDup_app_single (x : N) l : NoDup l -> ~ In x l -> NoDup (l ++ [x]).
+Proof.
+  induction l as [|y l IH]; cbn; intros Hn Hx; [constructor; [tauto|constructor]|].
+  inversion Hn as [|? ? Hy Hl]; subst. constructor.
+  - intros Hi. apply in_app_or in Hi. destruct Hi as [Hi|[<-|[]]]; tauto.
+  - apply IH; tauto.
+Qed.
